@@ -159,9 +159,15 @@ Section Build.
         match lookup consts n with
         | None => (vals, errs ++ [mkErr Panicked [n]])
         | Some e =>
-            match eval f (lookup vals) e with
-            | Ok v => eval_consts consts r (upd vals n v) errs
+            (* constants obey the width rules too: checked against the constants resolved so far *)
+            match check f (fun k => match lookup vals k with Some v => Some (wd v) | None => None end)
+                        (lookup vals) e with
             | Err es => eval_consts consts r vals (errs ++ es)
+            | Ok _ =>
+                match eval f (lookup vals) e with
+                | Ok v => eval_consts consts r (upd vals n v) errs
+                | Err es => eval_consts consts r vals (errs ++ es)
+                end
             end
         end
     end.
